@@ -214,6 +214,7 @@ func runScenario(sc Scenario) (out Outcome) {
 	sys.KeepalivePeriod = 100 * time.Millisecond
 	sys.KeepaliveTimeout = time.Second
 	sys.KeepaliveRpcTimeout = 500 * time.Millisecond
+	sys.Relax()
 	par := sc.Par
 	if par == 0 {
 		par = 4
